@@ -50,6 +50,18 @@ pdepth_f = z3.Function("pdepth", ElemArr, IntS, IntS)   # bracket depth of a nod
 seq_of = z3.Function("seq_of", IntS, ElemArr, V)        # abstract key of a list's contents (injective, see axiom)
 
 
+seq_len = z3.Function("seq_len", V, IntS)
+seq_els = z3.Function("seq_els", V, ElemArr)
+
+
+def seq_inverse_axioms():
+    """seq_len / seq_els invert seq_of (variable-length tuples are the values seq_of(n, elems))"""
+    n = z3.Int("sq_n")
+    e = z3.Const("sq_e", ElemArr)
+    return [z3.ForAll([n, e], z3.And(seq_len(seq_of(n, e)) == n, seq_els(seq_of(n, e)) == e),
+                      patterns=[seq_of(n, e)])]
+
+
 def seq_of_injective():
     n1, n2 = z3.Ints("sq_n1 sq_n2")
     e1, e2 = z3.Consts("sq_e1 sq_e2", ElemArr)
